@@ -17,7 +17,7 @@ pub fn edge_driver(out: &str, seed: u64, n: u64) {
     let mut r = Recorder::new(&format!("{}/edge.trace", out), base_setup());
     let (mut nbk, mut nkill, mut nclose, mut nutil) = (0u64, 0u64, 0u64, 0u64);
     for k in 0..n {
-        match k % 14 {
+        match k % 15 {
             0 => {
                 // ---- exact wipe: the sole borrower drew every deposited token (or all but delta), no fees, no time (or a
                 // second), empty or tiny insurance; collateral made worthless; bankruptcy. Uncovered loss =, <, > deposits.
@@ -25,7 +25,7 @@ pub fn edge_driver(out: &str, seed: u64, n: u64) {
                 let x: u64 = *pick(&mut rng, &[1_000_000u64, 123_456_789, 7, 50_000_000_000]);
                 // (loss = deposits, deposits - 1, deposits - 2; insurance empty, a unit, half, all, more than the debt)
                 let combos: [(u64, u64); 8] = [(0, 0), (1, 0), (0, 1), (0, x.saturating_add(5)), (2, 0), (0, x / 2), (0, x.saturating_mul(3)), (1, x)];
-                let (delta, ins) = combos[((k / 14) % 8) as usize];
+                let (delta, ins) = combos[((k / 15) % 8) as usize];
                 let two_lenders = rng.gen_bool(0.4);
                 let mut extra = vec![];
                 plain_bank("D1", dec, "spl", "1", json!({"ir":{"orig_fee":"0"}}), &mut extra);
@@ -512,7 +512,7 @@ pub fn edge_driver(out: &str, seed: u64, n: u64) {
                 extra.push(json!({"op":"fund","user":"U1","mint":"M.D1","amount":"4000000000000000000"}));
                 extra.push(json!({"op":"fund","user":"U1","mint":"M.C1","amount":"4000000000000000000"}));
                 r.begin(&extra);
-                let below = (k / 14) % 2 == 0;
+                let below = (k / 15) % 2 == 0;
                 r.act(json!({"op":"deposit","acct":"LP","bank":"D1","amount":50_000_000}));
                 r.act(json!({"op":"deposit","acct":"A1","bank":"C1","amount":1_000_000_000}));
                 r.act(json!({"op":"deposit","acct":"A1","bank":"D1","amount":1000}));
@@ -613,7 +613,7 @@ pub fn edge_driver(out: &str, seed: u64, n: u64) {
                     extra.push(json!({"op":"fund","user":"U1","mint":format!("M.K{}", i),"amount":"4000000000000"}));
                 }
                 // (the debt bank's name - and with it its key, above or below the collateral banks' keys - varies)
-                let db = format!("DB{}", k / 14);
+                let db = format!("DB{}", k / 15);
                 plain_bank(&db, 6, "spl", "1", json!({"ir":{"orig_fee":"0"}}), &mut extra);
                 extra.push(json!({"op":"fund","user":"U9","mint":format!("M.{}", db),"amount":"4000000000000"}));
                 r.begin(&extra);
@@ -645,6 +645,57 @@ pub fn edge_driver(out: &str, seed: u64, n: u64) {
                 }
                 r.act(json!({"op":"pulse_health","acct":"A2"}));
                 r.act(json!({"op":"withdraw","acct":"A2","bank":ab,"amount":1}));
+            }
+            14 => {
+                // ---- asset classes: a SOL-class position goes with either class, a default-class position (deposit or pure debt)
+                // excludes staked collateral and the other way round - whatever order the positions are opened in
+                let mut extra = vec![];
+                plain_bank("TS", 9, "spl", "1", json!({"aw_init":"0.8","aw_maint":"0.9","asset_tag":1,"ir":{"orig_fee":"0"}}), &mut extra);
+                plain_bank("TD", 6, "spl", "1", json!({"ir":{"orig_fee":"0"}}), &mut extra);
+                plain_bank("TK", 9, "spl", "1", json!({"aw_init":"0.8","aw_maint":"0.9","ir":{"orig_fee":"0"}}), &mut extra);
+                extra.push(json!({"op":"configure_bank","bank":"TK","cfg":{"asset_tag":2}}));
+                for m in ["M.TS", "M.TD", "M.TK"] {
+                    extra.push(json!({"op":"fund","user":"U1","mint":m,"amount":"4000000000000000"}));
+                    extra.push(json!({"op":"fund","user":"U9","mint":m,"amount":"4000000000000000"}));
+                }
+                r.begin(&extra);
+                r.act(json!({"op":"deposit","acct":"LP","bank":"TD","amount":"1000000000000"}));
+                r.act(json!({"op":"deposit","acct":"LP","bank":"TS","amount":"1000000000000"}));
+                let order = (k / 15) % 4;
+                match order {
+                    0 => {
+                        // SOL-class collateral, a pure default-class debt, then staked collateral
+                        r.act(json!({"op":"deposit","acct":"A1","bank":"TS","amount":"5000000000000"}));
+                        r.act(json!({"op":"borrow","acct":"A1","bank":"TD","amount":1_000_000u64}));
+                        r.act(json!({"op":"deposit","acct":"A1","bank":"TK","amount":"1000000000"}));
+                    }
+                    1 => {
+                        // staked collateral first, then a default-class debt / deposit
+                        r.act(json!({"op":"deposit","acct":"A1","bank":"TK","amount":"5000000000000"}));
+                        r.act(json!({"op":"borrow","acct":"A1","bank":"TD","amount":1_000_000u64}));
+                        r.act(json!({"op":"deposit","acct":"A1","bank":"TD","amount":1_000u64}));
+                        r.act(json!({"op":"borrow","acct":"A1","bank":"TS","amount":1_000_000u64}));
+                    }
+                    2 => {
+                        // a default-class debt that was repaid down to less than a share, then staked collateral
+                        r.act(json!({"op":"deposit","acct":"A1","bank":"TS","amount":"5000000000000"}));
+                        r.act(json!({"op":"borrow","acct":"A1","bank":"TD","amount":1_000_000u64}));
+                        r.act(json!({"op":"repay","acct":"A1","bank":"TD","amount":1_000_000u64}));
+                        r.act(json!({"op":"deposit","acct":"A1","bank":"TK","amount":"1000000000"}));
+                        r.act(json!({"op":"close_balance","acct":"A1","bank":"TD"}));
+                        r.act(json!({"op":"deposit","acct":"A1","bank":"TK","amount":"1000000000"}));
+                    }
+                    _ => {
+                        // default-class deposit, then staked; after leaving the default bank staked is fine
+                        r.act(json!({"op":"deposit","acct":"A1","bank":"TD","amount":1_000_000u64}));
+                        r.act(json!({"op":"deposit","acct":"A1","bank":"TK","amount":"1000000000"}));
+                        r.act(json!({"op":"withdraw","acct":"A1","bank":"TD","amount":0,"all":true}));
+                        r.act(json!({"op":"deposit","acct":"A1","bank":"TK","amount":"1000000000"}));
+                        r.act(json!({"op":"deposit","acct":"A1","bank":"TS","amount":"1000000000"}));
+                        r.act(json!({"op":"borrow","acct":"A1","bank":"TD","amount":1u64}));
+                    }
+                }
+                r.act(json!({"op":"pulse_health","acct":"A1"}));
             }
             _ => {
                 // ---- a solvent account in a collateral bank whose collateral-value cap is lowered far below its deposits
